@@ -177,6 +177,7 @@ type Exec struct {
 	MaxThreads int
 	Pruned     bool
 	stop       bool
+	inCond     bool
 	Diverged   string
 	HarnessErr string
 	sig        [2]uint64
@@ -356,6 +357,9 @@ func unwind(t *Thread) {
 
 func park(t *Thread) {
 	e := E
+	if e != nil && e.inCond {
+		panic("vsched: a scheduler primitive (lock, channel, ...) was used inside an Await condition; conditions must be pure")
+	}
 	if e == nil || e.tearing {
 		runtime.Goexit()
 	}
@@ -1278,7 +1282,10 @@ func (e *Exec) enabled(t *Thread) bool {
 	case opBlocked:
 		return t.ready
 	case opAwait:
-		return t.cond()
+		e.inCond = true
+		ok := t.cond()
+		e.inCond = false
+		return ok
 	}
 	return false
 }
